@@ -304,7 +304,7 @@ def run_cell(ctx, p):
     if p.get('sameobj'):
         sig['sameobj'] = True
     if p.get('unequal'):
-        sig['lens'] = '2x3'
+        sig['lens'] = 'unequal' if len(getattr(a, 'data', [])) <= 3 else 'unequal:long'
     what0 = '%s %s %s' % (L, op, R)
     cellkey = (L, R, op, la + lb, bool(p.get('sameobj')), bool(p.get('unequal')))
     if L == R and L in SV and op in ('add', 'sub', 'iadd', 'isub') and la != lb:
@@ -540,7 +540,8 @@ def run(ctx):
                 i += 1
                 if ctx.mine(i):
                     a3 = operand(rng, c, True) + operand(rng, c, False)
-                    for a_, b_ in ((operand(rng, c, True), a3), (a3, operand(rng, c, True))):
+                    for a_, b_ in ((operand(rng, c, True), a3), (a3, operand(rng, c, True)), (operand(rng, c, 128), operand(rng, c, 129)),
+                                   (operand(rng, c, 256), operand(rng, c, 300))):
                         drive(RUNNERS, ctx, 'cell', dict(L=c, R=c, op=op, a=a_, b=b_, exp=['raise'], unequal=True))
     for c in POSES:
         for order in ('ns', 'sn', 'nns', 'snn', 'nsn'):
@@ -563,6 +564,24 @@ def run(ctx):
                 i += 1
                 if ctx.mine(i):
                     drive(RUNNERS, ctx, 'cell', dict(L=L_, R=R_, op=op, a=operand(rng, L_, nl), b=operand(rng, R_, nr), exp=['raise']))
+    # every refused pair of multi-valued classes again with objects of many values (a vectorised path taken above some length must
+    # still look at the classes before it looks at the numbers)
+    for L_, R_ in itertools.permutations([c_ for c_ in CLASSES if c_ in MULTI_OK], 2):
+        if L_ in POSES and R_ in POSES:
+            continue
+        for op in ARITH:
+            if expected(L_, R_, op)[0] != 'raise':
+                continue
+            for n_ in (16, 256, 300):
+                i += 1
+                if ctx.mine(i):
+                    drive(RUNNERS, ctx, 'cell', dict(L=L_, R=R_, op=op, a=operand(rng, L_, n_), b=operand(rng, R_, n_), exp=['raise']))
+    for L_, R_ in itertools.permutations(POSES, 2):
+        for op in ARITH:
+            for n_ in (256, 300):
+                i += 1
+                if ctx.mine(i):
+                    drive(RUNNERS, ctx, 'cell', dict(L=L_, R=R_, op=op, a=operand(rng, L_, n_), b=operand(rng, R_, n_), exp=['raise']))
     # operands holding no value (Empty()): never None
     for c in POSES + ['Quaternion', 'UnitQuaternion', 'Twist2', 'Twist3']:
         d_ = 2 if c in ('SO2', 'SE2', 'Twist2') else 3
